@@ -777,9 +777,9 @@ func (r *sessRun) strictStep(act, id string) bool {
 	case "RdDelete":
 		return r.relWait(k("rd.stored"), k("rd.deleted"))
 	case "RdWait":
-		return r.relWait(k("rd.deleted"), k("rd.waited"))
+		return r.relWait(k("rd.cancelled"), k("rd.waited"))
 	case "RdRange":
-		if !r.g.Release(k("rd.waited")) {
+		if !r.g.Release(k("rd.deleted")) {
 			return false
 		}
 		// the Range runs until it is done (rd.cancelled) or blocks on a call's mutex
@@ -790,7 +790,7 @@ func (r *sessRun) strictStep(act, id string) bool {
 	case "RdCancelEnd":
 		return r.g.WaitParked(k("rd.cancelled"), stepWait)
 	case "RdSock":
-		if !r.g.Release(k("rd.cancelled")) {
+		if !r.g.Release(k("rd.waited")) {
 			return false
 		}
 		time.Sleep(200 * time.Microsecond)
